@@ -64,18 +64,10 @@ def kernel():
 
 
 def e3_plan(thorough):
-    """Root executions and the subtrees to hand out: list of tasks."""
+    """One task per harness; partitions are derived inside the worker from the iterations the kernel's parallel
+    loop actually has (they need not be the points: a kernel may loop over blocks)."""
     fn, info = kernel()
-    tasks = []
-    for hname, (args, niter, T) in harnesses(thorough).items():
-        parts = [p for p in S.set_partitions(range(niter), T)] if niter else [[]]
-        for p in parts:
-            p = sorted(p)
-            if len(p) <= 1:
-                tasks.append({"h": hname, "partition": p, "prefix": [], "root": True, "single": True})
-                continue
-            tasks.append({"h": hname, "partition": p, "prefix": None, "root": True, "single": False})
-    return tasks, info
+    return [{"h": hname} for hname in harnesses(thorough)], info
 
 
 def est_interleavings(points_per_thread):
@@ -86,48 +78,30 @@ def est_interleavings(points_per_thread):
     return r
 
 
+def same(res, seq):
+    return all(np.array_equal(a, b) for a, b in zip(res, seq))
+
+
 def e3_work(payload):
-    """Explore a batch of (harness, partition) pairs completely."""
+    """Explore a batch of harnesses (phase 1) or subtrees of full enumerations (phase 2)."""
     acc = Acc()
     fn, info = kernel()
     thorough = payload["tier"] == "thorough"
     H = harnesses(thorough)
     for t in payload["tasks"]:
-        args, niter, T = H[t["h"]]
-        seq, s0 = S.run_sequential(fn, info, args)
-        conf = S.conflicts(s0)
+        args, npts, Tmax = H[t["h"]]
+        ref, _ = S.run_sequential(fn, info, args, nthreads=1)
 
-        def check(res, seq=seq):
-            if all(np.array_equal(a, b) for a, b in zip(res, seq)):
+        def check(res, ref=ref):
+            if same(res, ref):
                 return None
             return {"out": np.asarray(res[0]).tolist(), "counts": np.asarray(res[1]).tolist(),
-                    "sequential_out": np.asarray(seq[0]).tolist(), "sequential_counts": np.asarray(seq[1]).tolist()}
+                    "one_thread_out": np.asarray(ref[0]).tolist(), "one_thread_counts": np.asarray(ref[1]).tolist()}
 
-        part = t["partition"]
-        case = {"kind": "schedule", "harness": t["h"], "partition": part}
-        if not info["parallel"] or len(part) <= 1:
-            acc.case(nontrivial=False, outcome="sequential")
-            acc.count("executions")
-            continue
-        # points per thread from the sequential access log (loads/stores on written arrays)
-        ppt = [sum(len(s0.access.get(i, [])) for i in p) + 1 for p in part]
-        owner = {i: k for k, blk in enumerate(part) for i in blk}
-        cross = [cf for cf in conf if len({owner[i] for i in cf[3]}) > 1]
-        if not cross:
-            # conflict certificate: no element is written by an iteration of one thread and read or written by an
-            # iteration of another, so all interleavings are equivalent; run one and compare
-            res, s = S.run_threads(fn, info, args, part, [])
-            acc.case(nontrivial=True, outcome="conflict-free-certificate")
-            acc.count("executions")
-            acc.count("conflict_free_partitions")
-            d = check(res)
-            if d:
-                acc.violation("C05:schedule-dependent-result:conflict-free-input", (0, 0), dict(case, schedule=[]), d)
-            continue
-        total = est_interleavings(ppt)
         if t.get("phase", 1) == 2:
-            # one subtree of the full enumeration
-            out = S.explore_subtree(fn, info, args, part, t["prefix"], None, check, root_only_if=t.get("root_only", False))
+            part, T = t["partition"], t["T"]
+            case = {"kind": "schedule", "harness": t["h"], "partition": part, "threads": T}
+            out = S.explore_subtree(fn, info, args, part, t["prefix"], None, check, root_only_if=t.get("root_only", False), nthreads=T)
             acc.count("executions", out["executions"])
             acc.count("choice_points", out["executions"] * out["max_choices"])
             acc.count("full_enumeration_executions", out["executions"])
@@ -136,37 +110,72 @@ def e3_work(payload):
             acc.case(nontrivial=True, outcome="enumerated-full-subtree")
             acc.counters["distinct_final_states"] = max(acc.counters["distinct_final_states"], len(out["outcomes"]))
             continue
-        found = False
-        for b in (0, 1, 2):
-            out = S.explore_subtree(fn, info, args, part, [], b, check)
-            acc.count("executions", out["executions"])
-            acc.count("choice_points", out["executions"] * out["max_choices"])
-            for sched, d in [f for f in out["failures"] if f]:
-                acc.violation("C05:schedule-dependent-result:lost-update", (1, b), dict(case, schedule=sched, preemption_bound=b), d)
-                found = True
-            acc.counters["bound_completed:" + str(b)] += 1
-            acc.counters["distinct_final_states"] = max(acc.counters["distinct_final_states"], len(out["outcomes"]))
-            if found:
-                break
-        acc.case(nontrivial=True, outcome="violation-at-bound" if found else "enumerated-bound-2")
-        acc.sample({"harness": t["h"], "partition": part, "interleavings_estimated": total, "executions_at_last_bound": out["executions"],
-                    "distinct_final_states": len(out["outcomes"]), "conflicts": [list(map(str, c)) for c in conf[:3]]}, limit=4)
-        if not found:
-            acc.need_full = getattr(acc, "need_full", []) + [{"h": t["h"], "partition": part, "total": total}]
+        if not info["parallel"]:
+            acc.case(nontrivial=False, outcome="kernel-not-parallel")
+            acc.count("executions")
+            continue
+        for T in range(2, Tmax + 1):
+            # one thread running all iterations, with numba reporting T threads
+            seqT, s0 = S.run_sequential(fn, info, args, nthreads=T)
+            acc.count("executions")
+            if not same(seqT, ref):
+                acc.violation("C05:result-depends-on-thread-count", (0, T), {"kind": "schedule", "harness": t["h"], "partition": [], "threads": T, "schedule": []}, check(seqT))
+            iters = getattr(s0, "iterations", [])
+            conf = S.conflicts(s0)
+            for part in [sorted(p) for p in S.set_partitions(iters, T)]:
+                case = {"kind": "schedule", "harness": t["h"], "partition": part, "threads": T}
+                if len(part) <= 1:
+                    continue
+                owner = {i: k for k, blk in enumerate(part) for i in blk}
+                cross = [cf for cf in conf if len({owner[i] for i in cf[3]}) > 1]
+                ppt = [sum(len(s0.access.get(i, [])) for i in p) + 1 for p in part]
+                if not cross:
+                    # conflict certificate: no element is written by an iteration of one thread and read or written by
+                    # an iteration of another, so all interleavings are equivalent; run one and compare
+                    res, s = S.run_threads(fn, info, args, part, [], nthreads=T)
+                    acc.case(nontrivial=True, outcome="conflict-free-certificate")
+                    acc.count("executions")
+                    acc.count("conflict_free_partitions")
+                    d = check(res)
+                    if d:
+                        acc.violation("C05:schedule-dependent-result:conflict-free-input", (0, 0), dict(case, schedule=[]), d)
+                    continue
+                total = est_interleavings(ppt)
+                found = False
+                for b in (0, 1, 2):
+                    out = S.explore_subtree(fn, info, args, part, [], b, check, nthreads=T)
+                    acc.count("executions", out["executions"])
+                    acc.count("choice_points", out["executions"] * out["max_choices"])
+                    for sched, d in [f for f in out["failures"] if f]:
+                        acc.violation("C05:schedule-dependent-result:lost-update", (1, b), dict(case, schedule=sched, preemption_bound=b), d)
+                        found = True
+                    acc.counters["bound_completed:" + str(b)] += 1
+                    acc.counters["distinct_final_states"] = max(acc.counters["distinct_final_states"], len(out["outcomes"]))
+                    if found:
+                        break
+                acc.case(nontrivial=True, outcome="violation-at-bound" if found else "enumerated-bound-2")
+                acc.sample({"harness": t["h"], "threads": T, "partition": part, "interleavings_estimated": total, "executions_at_last_bound": out["executions"],
+                            "distinct_final_states": len(out["outcomes"]), "conflicts": [list(map(str, c)) for c in cross[:3]]}, limit=4)
+                if not found:
+                    acc.need_full = getattr(acc, "need_full", []) + [{"h": t["h"], "partition": part, "T": T, "total": total}]
     return acc
 
 
 def e3_replay(case):
     fn, info = kernel()
     H = harnesses(True)
-    args, niter, T = H[case["harness"]]
-    seq, _ = S.run_sequential(fn, info, args)
+    args, npts, Tmax = H[case["harness"]]
+    ref, _ = S.run_sequential(fn, info, args, nthreads=1)
     if not info["parallel"]:
         return []
-    res, s = S.run_threads(fn, info, args, case["partition"], case["schedule"])
-    if all(np.array_equal(a, b) for a, b in zip(res, seq)):
+    T = case.get("threads", max(1, len(case["partition"])))
+    if not case["partition"]:
+        seqT, _ = S.run_sequential(fn, info, args, nthreads=T)
+        return [] if same(seqT, ref) else ["C05:result-depends-on-thread-count"]
+    res, s = S.run_threads(fn, info, args, case["partition"], case["schedule"], nthreads=T)
+    if same(res, ref):
         return []
-    return ["C05:schedule-dependent-result:" + ("conflict-free-input" if not case["schedule"] and not S.conflicts(S.run_sequential(fn, info, args)[1]) else "lost-update")]
+    return ["C05:schedule-dependent-result:" + ("lost-update" if case["schedule"] else "conflict-free-input")]
 
 
 # ------------------------------------------------------------------ E1: compiled kernel
@@ -453,25 +462,40 @@ def api_work(payload):
     return acc
 
 
-# ------------------------------------------------------------------ free-running corroboration (never a verdict)
+# ------------------------------------------------------------------ thread-count ladder on the compiled kernel
 
-FREE_RUN = r'''
+LADDER = r'''
 import sys, json, numpy as np
 sys.path.insert(0, sys.argv[1])
+sizes = json.loads(sys.argv[2]); threads = json.loads(sys.argv[3])
 from osyris.plot.utils import hist2d
 import numba
-n = 400000
-x = np.full(n, 0.1); y = np.full(n, 0.1); v = np.ones((1, n))
-hist2d(x[:10], y[:10], v[:, :10], 0.0, 1.0, 2, 0.0, 1.0, 2)
-res = []
-for k in range(5):
-    out, counts = hist2d(x, y, v, 0.0, 1.0, 2, 0.0, 1.0, 2)
-    res.append(int(counts[0, 0]))
-print("FREE" + json.dumps({"threads": numba.get_num_threads(), "expected": n, "counts": res}))
+maxt = numba.config.NUMBA_NUM_THREADS
+out = []
+for n in sizes:
+    i = np.arange(n, dtype=np.int64)
+    x = ((i * 7919) % 1009) / 1009.0 * 1.2 - 0.1      # some points fall outside [0, 1)
+    y = ((i * 104729) % 997) / 997.0 * 1.2 - 0.1
+    v = np.stack([np.ones(n), ((i % 7) + 1).astype(np.float64)])   # integer-valued: sums are exact in any order
+    numba.set_num_threads(1)
+    ref = hist2d(x, y, v, 0.0, 1.0, 4, 0.0, 1.0, 3)
+    for k in threads:
+        if k > maxt:
+            continue
+        numba.set_num_threads(k)
+        runs = [hist2d(x, y, v, 0.0, 1.0, 4, 0.0, 1.0, 3) for _ in range(3)]
+        same_as_ref = [bool(np.array_equal(r[0], ref[0]) and np.array_equal(r[1], ref[1])) for r in runs]
+        stable = all(np.array_equal(r[0], runs[0][0]) and np.array_equal(r[1], runs[0][1]) for r in runs)
+        out.append({"n": int(n), "threads": int(k), "same_as_one_thread": same_as_ref, "stable": bool(stable),
+                    "total": int(runs[0][1].sum()), "total_one_thread": int(ref[1].sum())})
+print("LADDER" + json.dumps(out))
 '''
 
+LADDER_SIZES = [0, 1, 2, 3, 17] + [2**k + 1 for k in range(10, 21)] + [100003, 720721, 1000003]
+LADDER_THREADS = [2, 3, 5, 7, 16]
 
-def free_running():
+
+def run_ladder(sizes, threads):
     import json
     import subprocess
     import sys
@@ -479,12 +503,31 @@ def free_running():
     from ..runner import repo_root
 
     env = dict(os.environ, NUMBA_NUM_THREADS="16")
-    try:
-        p = subprocess.run([sys.executable, "-c", FREE_RUN, os.path.join(repo_root(), "src")], env=env, capture_output=True, text=True, timeout=300)
-        line = [l for l in p.stdout.splitlines() if l.startswith("FREE")]
-        return json.loads(line[0][4:]) if line else {"error": (p.stdout + p.stderr)[-300:]}
-    except Exception as e:
-        return {"error": repr(e)}
+    p = subprocess.run([sys.executable, "-c", LADDER, os.path.join(repo_root(), "src"), json.dumps(sizes), json.dumps(threads)],
+                       env=env, capture_output=True, text=True, timeout=1200)
+    line = [l for l in p.stdout.splitlines() if l.startswith("LADDER")]
+    if not line:
+        raise RuntimeError("ladder subprocess failed: " + (p.stdout + p.stderr)[-500:])
+    return json.loads(line[0][6:])
+
+
+def ladder_work(payload):
+    """The compiled kernel for every (size, thread count) of the ladder against its own 1-thread result. A deterministic
+    difference is a violation; an unstable one (results change from run to run) is reported as corroboration only,
+    because it could not be replayed - the schedule exploration is what decides races."""
+    acc = Acc()
+    sizes = payload.get("sizes", LADDER_SIZES)
+    res = run_ladder(sizes, payload.get("threads", LADDER_THREADS))
+    for idx, r in enumerate(res):
+        bad = not all(r["same_as_one_thread"])
+        acc.case(nontrivial=r["n"] > 1, outcome="differs" if bad else "same")
+        if bad and r["stable"]:
+            acc.violation("C05:compiled-kernel-result-depends-on-thread-count", idx, {"kind": "ladder", "n": r["n"], "threads": r["threads"]},
+                          {"total": r["total"], "total_one_thread": r["total_one_thread"]})
+        elif bad:
+            acc.count("unstable_results_corroboration_only")
+    acc.sample({"kind": "ladder", "sizes": sizes, "threads": LADDER_THREADS})
+    return acc
 
 
 # ------------------------------------------------------------------ driver
@@ -497,7 +540,7 @@ def run(ctx):
     # phase 1: conflict certificates and preemption bounds 0,1,2 for every (harness, partition)
     nshard = ctx.pool.n * 2
     batches = [[] for _ in range(nshard)]
-    for i, t in enumerate(sorted(tasks, key=lambda t: -len(str(t["partition"])))):
+    for i, t in enumerate(tasks):
         batches[i % nshard].append(t)
     parts = ctx.pool.map(MOD, "e3_work", [ctx.base(tasks=b) for b in batches if b])
     need_full = [x for a in parts for x in getattr(a, "need_full", [])]
@@ -511,11 +554,11 @@ def run(ctx):
             skipped_full.append(nf)
             continue
         args = H[nf["h"]][0]
-        res, sch = S.run_threads(fn, info, args, nf["partition"], [])
+        res, sch = S.run_threads(fn, info, args, nf["partition"], [], nthreads=nf["T"])
         kids = S.children_of(sch.trace, 0, None)
-        sub.append({"h": nf["h"], "partition": nf["partition"], "phase": 2, "prefix": [], "root_only": True})
+        sub.append({"h": nf["h"], "partition": nf["partition"], "T": nf["T"], "phase": 2, "prefix": [], "root_only": True})
         for k in kids:
-            sub.append({"h": nf["h"], "partition": nf["partition"], "phase": 2, "prefix": k})
+            sub.append({"h": nf["h"], "partition": nf["partition"], "T": nf["T"], "phase": 2, "prefix": k})
     if sub:
         batches = [[] for _ in range(nshard * 4)]
         for i, t in enumerate(sub):
@@ -528,7 +571,10 @@ def run(ctx):
     t0 = ctx.timer()
     aa = Acc.merged(ctx.pool.shards(MOD, "api_work", ctx.base()))
     phase["api_inputs"] = round(ctx.timer() - t0, 2)
-    acc = Acc.merged([a3, ak, aa])
+    t0 = ctx.timer()
+    al = Acc.merged(ctx.pool.map(MOD, "ladder_work", [ctx.base(sizes=LADDER_SIZES[i::4]) for i in range(4)]))
+    phase["thread_count_ladder"] = round(ctx.timer() - t0, 2)
+    acc = Acc.merged([a3, ak, aa, al])
     execs = a3.counters.get("executions", 0)
     cov = {
         "states": max(1, execs),
@@ -540,7 +586,7 @@ def run(ctx):
         "kernel_parallel": info["parallel"],
         "regions": info["regions"],
         "schedules_executed": execs,
-        "harness_partitions": len(tasks),
+        "harnesses": len(tasks),
         "conflict_free_partitions": a3.counters.get("conflict_free_partitions", 0),
         "bounds_completed": {k.split(":")[1]: v for k, v in a3.counters.items() if k.startswith("bound_completed")},
         "max_distinct_final_states_in_one_harness": a3.counters.get("distinct_final_states", 0),
@@ -555,21 +601,24 @@ def run(ctx):
         "kernel_input_cases": ak.evaluations,
         "api_input_cases": aa.evaluations,
         "api_outcomes": dict(aa.outcomes),
+        "thread_count_ladder": {"sizes": LADDER_SIZES, "threads": LADDER_THREADS, "compiled_runs_compared": al.evaluations,
+                                "outcomes": dict(al.outcomes), "unstable_results_corroboration_only": al.counters.get("unstable_results_corroboration_only", 0)},
         "exhaustive": True,
         "phase_wall_s": phase,
     }
-    if ctx.thorough:
-        cov["free_running_16_threads_corroboration_only"] = free_running()
     return {"level": LEVEL, "coverage": cov, "violations": acc.violation_list(), "errors": acc.errors,
             "assumptions": ["schedule exploration is on source-derived thread bodies under sequentially consistent memory at element granularity, "
                             "not on numba's compiled threads; whether the region is parallel is read from the real dispatcher",
                             "a point exactly on the upper limit may be counted in the last bin or not at all; automatic limits with no finite point may raise",
-                            "the free-running 16-thread run of the compiled kernel is corroboration only and never decides the verdict"]}
+                            "thread-count ladder: the compiled kernel is run with numba.set_num_threads(k) for every (size, k) of the ladder on "
+                            "integer-valued data (sums exact in any order); only differences that are identical in three runs are verdicts"]}
 
 
 def replay_sigs(case):
     if case.get("kind") == "schedule":
         return e3_replay(case)
+    if case.get("kind") == "ladder":
+        return list(ladder_work({"sizes": [case["n"]], "threads": [case["threads"]]}).violations.keys())
     acc = Acc()
     if case.get("kind") == "kernel":
         run_kernel_case(acc, 0, case)
